@@ -1,17 +1,26 @@
 (* C15 — all read paths agree with each other and with equality / hashing.
    Property theorems only.  Proved: indexing presents exactly the represented content, in order,
    for every contents tree (CRep) and for lists of composite elements; equality of views is
-   equality of hash-tree-roots; equal views have equal hashes.  The stack iterators
-   (ModelIters.v) are tied to the code and compared with indexing by the correspondence
-   (lengths sweeping every subtree boundary); their invariant proof is not done (see "partial"). *)
-Require Import RM.Base RM.Gindex RM.Tree RM.Types RM.Spec RM.ModelViews RM.ModelCodec RM.ModelMut
-               RM.MerkleProofs RM.CRepProofs RM.ListProofs RM.CtorProofs.
+   equality of hash-tree-roots; equal views have equal hashes; the stack iterator over bottom
+   nodes (NodeIter) agrees with indexing.  The packed and bit iterators (same backtracking step,
+   plus an intra-chunk counter) are tied to the code and compared with indexing by the
+   correspondence (lengths sweeping every subtree boundary). *)
+Require Import RM.Base RM.Gindex RM.Tree RM.Types RM.Spec RM.ModelViews RM.ModelCodec RM.ModelMut RM.ModelIters
+               RM.MerkleProofs RM.CRepProofs RM.ListProofs RM.CtorProofs RM.IterProofs.
 Local Open Scope N_scope.
 
 (* index i of a contents tree representing ns reads the i-th represented node *)
 Theorem C15_index_reads_content : forall H src d n ns, CRep H d n ns -> forall i dflt, i < lenN ns ->
   getter src n (be_bits d i) = Ok (nth (N.to_nat i) ns dflt).
 Proof. exact CRep_get. Qed.
+
+(* read-only iteration (NodeIter: ComplexElemIter / ComplexFreshElemIter / ContainerElemIter) agrees
+   with indexing: whenever positions 0..k-1 can be read at the paths of to_gindex i depth, the stack
+   machine returns exactly those nodes in that order — every tree, every depth, every count *)
+Theorem C15_node_iter_agrees_with_indexing : forall src anchor d (k : N) leaves, k <= 2 ^ N.of_nat d ->
+  seq_res (map (fun j => getter src anchor (be_bits d j)) (iotaN (N.to_nat k))) = Ok leaves ->
+  node_iter src anchor d k = Ok leaves.
+Proof. exact node_iter_agrees. Qed.
 
 (* len() and [i] of a list view present the represented elements in order *)
 Theorem C15_list_reads : forall H src e limit, basic_size e = None -> limit < 2 ^ 64 ->
@@ -36,6 +45,7 @@ Theorem C15_equal_content_equal : forall H t v a b, wf_ty t = true -> wf t v = t
 Proof. intros H t v a b _ _ Ha Hb. rewrite Ha in Hb. inversion Hb; subst. apply bytes_eqb_eq. reflexivity. Qed.
 
 Print Assumptions C15_index_reads_content.
+Print Assumptions C15_node_iter_agrees_with_indexing.
 Print Assumptions C15_list_reads.
 Print Assumptions C15_eq_iff_root.
 Print Assumptions C15_hash_consistent.
